@@ -4,6 +4,8 @@ package main
 import (
 	"fmt"
 	"sort"
+	"strconv"
+	"strings"
 
 	"harness/enga"
 	"harness/sim"
@@ -16,8 +18,212 @@ import (
 // nKeys is the size of the key space of a run (4 mostly; 8 or 16 rarely).
 var nKeys = 4
 
+// kvAPI is the map seen through int keys and values; key and value types of the real SafeKV vary
+// per case (elem), so that a change which is wrong only for some instantiation does not hide
+// behind SafeKV[int, int].
+type kvAPI interface {
+	Get(int) (int, bool)
+	Set(int, int)
+	SetNx(int, int) bool
+	SetX(int, int) bool
+	Delete(...int)
+	Has(int) bool
+	Contains(int) bool
+	Len() int
+	Keys() []int
+	Values() []int
+	Range(func(k, v int) bool)
+	All(func(k, v int) bool)
+	GetWithMap(ks []int) []int
+	GetWithLock(int, func(int))
+	MapMove(k0, k1 int) (int, bool)
+	MapSetLen(k, v int) int
+	Clear()
+	Final(nKeys int) (ks, vs []int)
+}
+
+type kvOf[K comparable, V any] struct {
+	m  *mapz.SafeKV[K, V]
+	ek func(int) K
+	dk func(K) int
+	ev func(int) V
+	dv func(V) int
+}
+
+func (a *kvOf[K, V]) Get(k int) (int, bool) {
+	v, ok := a.m.Get(a.ek(k))
+	if !ok {
+		return 0, false
+	}
+	return a.dv(v), true
+}
+func (a *kvOf[K, V]) Set(k, v int)        { a.m.Set(a.ek(k), a.ev(v)) }
+func (a *kvOf[K, V]) SetNx(k, v int) bool { return a.m.SetNx(a.ek(k), a.ev(v)) }
+func (a *kvOf[K, V]) SetX(k, v int) bool  { return a.m.SetX(a.ek(k), a.ev(v)) }
+func (a *kvOf[K, V]) Delete(ks ...int) {
+	var kk []K
+	if ks != nil {
+		kk = make([]K, len(ks))
+		for i, k := range ks {
+			kk[i] = a.ek(k)
+		}
+	}
+	a.m.Delete(kk...)
+}
+func (a *kvOf[K, V]) Has(k int) bool      { return a.m.Has(a.ek(k)) }
+func (a *kvOf[K, V]) Contains(k int) bool { return a.m.Contains(a.ek(k)) }
+func (a *kvOf[K, V]) Len() int            { return a.m.Len() }
+func (a *kvOf[K, V]) Keys() []int {
+	ks := a.m.Keys()
+	out := make([]int, len(ks))
+	for i, k := range ks {
+		out[i] = a.dk(k)
+	}
+	return out
+}
+func (a *kvOf[K, V]) Values() []int {
+	vs := a.m.Values()
+	if vs == nil {
+		return nil
+	}
+	out := make([]int, len(vs))
+	for i, v := range vs {
+		out[i] = a.dv(v)
+	}
+	return out
+}
+func (a *kvOf[K, V]) Range(f func(k, v int) bool) {
+	a.m.Range(func(k K, v V) bool { return f(a.dk(k), a.dv(v)) })
+}
+func (a *kvOf[K, V]) All(f func(k, v int) bool) {
+	for k, v := range a.m.All() {
+		if !f(a.dk(k), a.dv(v)) {
+			break
+		}
+	}
+}
+func (a *kvOf[K, V]) GetWithMap(ks []int) []int {
+	m := map[K]V{}
+	for _, k := range ks {
+		m[a.ek(k)] = a.ev(-1)
+	}
+	a.m.GetWithMap(m)
+	var out []int
+	for _, k := range ks {
+		out = append(out, a.dv(m[a.ek(k)]))
+	}
+	return out
+}
+func (a *kvOf[K, V]) GetWithLock(k int, f func(int)) {
+	a.m.GetWithLock(a.ek(k), func(v V) { f(a.dv(v)) })
+}
+func (a *kvOf[K, V]) MapMove(k0, k1 int) (val int, moved bool) {
+	// atomic compound on the inner map: move the binding of k0 to k1
+	a.m.Map(func(kv mapz.KV[K, V]) {
+		if v, ok := kv[a.ek(k0)]; ok {
+			delete(kv, a.ek(k0))
+			kv[a.ek(k1)] = v
+			val, moved = a.dv(v), true
+		}
+	})
+	return
+}
+func (a *kvOf[K, V]) MapSetLen(k, v int) (n int) {
+	a.m.Map(func(kv mapz.KV[K, V]) {
+		kv.Set(a.ek(k), a.ev(v))
+		n = kv.Len()
+	})
+	return
+}
+func (a *kvOf[K, V]) Clear() { a.m.Clear() }
+func (a *kvOf[K, V]) Final(nKeys int) (ks, vs []int) {
+	a.m.Map(func(kv mapz.KV[K, V]) {
+		for k := 0; k < nKeys; k++ {
+			if v, ok := kv[a.ek(k)]; ok {
+				ks = append(ks, k)
+				vs = append(vs, a.dv(v))
+			}
+		}
+		if len(kv) != len(ks) {
+			ks = append(ks, -1) // foreign key: cannot match any model state
+			vs = append(vs, -1)
+		}
+	})
+	return
+}
+
+type skey struct {
+	A int
+	B string
+}
+
+type triple struct {
+	A int
+	B int64
+	C uint64
+}
+
+const tornBase = 0x7ead0000
+
+func newKV(elem, capHint int) kvAPI {
+	switch elem {
+	case 1:
+		return &kvOf[string, string]{m: mapz.NewSafeKV[string, string](capHint),
+			ek: func(k int) string { return "k" + strconv.Itoa(k) },
+			dk: func(s string) int {
+				n, err := strconv.Atoi(strings.TrimPrefix(s, "k"))
+				if err != nil {
+					return -7
+				}
+				return n
+			},
+			ev: func(v int) string { return strconv.Itoa(v) },
+			dv: func(s string) int {
+				n, err := strconv.Atoi(s)
+				if err != nil {
+					return tornBase + len(s)
+				}
+				return n
+			}}
+	case 2:
+		return &kvOf[skey, triple]{m: mapz.NewSafeKV[skey, triple](capHint),
+			ek: func(k int) skey { return skey{k, "k" + strconv.Itoa(k&3)} },
+			dk: func(s skey) int {
+				if s.B != "k"+strconv.Itoa(s.A&3) {
+					return -7
+				}
+				return s.A
+			},
+			ev: func(v int) triple { return triple{v, ^int64(v), uint64(v) * 3} },
+			dv: func(t triple) int {
+				if t.B != ^int64(t.A) || t.C != uint64(t.A)*3 {
+					return tornBase + 1000 + t.A&0xff
+				}
+				return t.A
+			}}
+	case 3:
+		return &kvOf[any, *int]{m: mapz.NewSafeKV[any, *int](capHint),
+			ek: func(k int) any { return k },
+			dk: func(x any) int {
+				if n, ok := x.(int); ok {
+					return n
+				}
+				return -7
+			},
+			ev: func(v int) *int { return &v },
+			dv: func(p *int) int {
+				if p == nil {
+					return tornBase + 2000
+				}
+				return *p
+			}}
+	}
+	id := func(v int) int { return v }
+	return &kvOf[int, int]{m: mapz.NewSafeKV[int, int](capHint), ek: id, dk: id, ev: id, dv: id}
+}
+
 type inst struct {
-	m    *mapz.SafeKV[int, int]
+	m    kvAPI
 	init map[int]int
 }
 
@@ -64,24 +270,15 @@ func (x *inst) Do(t int, op sim.Op) sim.Rec {
 		r.OK = true
 	case "All":
 		n := 0
-		for k, v := range x.m.All() {
+		x.m.All(func(k, v int) bool {
 			r.Ks = append(r.Ks, k)
 			r.Vs = append(r.Vs, v)
 			n++
-			if op.D != 0 && n >= op.D {
-				break
-			}
-		}
+			return op.D == 0 || n < op.D
+		})
 		r.OK = true
 	case "GetWithMap":
-		m := map[int]int{}
-		for _, k := range op.Ks {
-			m[k] = -1
-		}
-		x.m.GetWithMap(m)
-		for _, k := range op.Ks {
-			r.Vs = append(r.Vs, m[k])
-		}
+		r.Vs = x.m.GetWithMap(op.Ks)
 		r.OK = true
 	case "GetWithLock":
 		x.m.GetWithLock(op.K, func(v int) {
@@ -89,19 +286,9 @@ func (x *inst) Do(t int, op sim.Op) sim.Rec {
 			r.V = v
 		})
 	case "MapMove":
-		// atomic compound on the inner map: move the binding of Ks[0] to Ks[1]
-		x.m.Map(func(kv mapz.KV[int, int]) {
-			if v, ok := kv[op.Ks[0]]; ok {
-				delete(kv, op.Ks[0])
-				kv[op.Ks[1]] = v
-				r.OK, r.V = true, v
-			}
-		})
+		r.V, r.OK = x.m.MapMove(op.Ks[0], op.Ks[1])
 	case "MapSetLen":
-		x.m.Map(func(kv mapz.KV[int, int]) {
-			kv.Set(op.K, op.V)
-			r.V = kv.Len()
-		})
+		r.V = x.m.MapSetLen(op.K, op.V)
 		r.OK = true
 	case "Clear":
 		x.m.Clear()
@@ -145,6 +332,7 @@ func gen(r *sim.Rng, tier string) *sim.Case {
 		c.Params["init_pct"] = r.Range(50, 100)
 	}
 	c.Params["nkeys"] = nKeys
+	c.Params["elem"] = r.Pick(6, 3, 3, 2) // key/value types: int/int, string/string, struct/three-word struct, interface/pointer
 	if nKeys <= 32 {
 		c.Params["init_mask"] = r.N(1 << nKeys)
 	}
@@ -229,7 +417,7 @@ func setKeys(c *sim.Case) {
 
 func build(c *sim.Case) enga.Instance {
 	setKeys(c)
-	x := &inst{m: mapz.NewSafeKV[int, int](r2(c.P("init_mask"))), init: map[int]int{}}
+	x := &inst{m: newKV(c.P("elem"), r2(c.P("init_mask"))), init: map[int]int{}}
 	for k := 0; k < nKeys; k++ {
 		present := false
 		if nKeys <= 32 {
@@ -448,18 +636,7 @@ func check(run *enga.Run) *sim.Violation {
 	}
 	// final state, read single-threaded through the structure itself
 	var fin sim.Rec
-	x.m.Map(func(kv mapz.KV[int, int]) {
-		for k := 0; k < nKeys; k++ {
-			if v, ok := kv[k]; ok {
-				fin.Ks = append(fin.Ks, k)
-				fin.Vs = append(fin.Vs, v)
-			}
-		}
-		if len(kv) != len(fin.Ks) {
-			fin.Ks = append(fin.Ks, -1) // foreign key: cannot match any model state
-			fin.Vs = append(fin.Vs, -1)
-		}
-	})
+	fin.Ks, fin.Vs = x.m.Final(nKeys)
 	ops = append(ops, porcupine.Operation{ClientId: len(c.Programs), Call: maxRet + 1, Return: maxRet + 2, Input: kvIn{sim.Op{Op: "Final"}}, Output: kvOut{fin}})
 	if len(ops) <= 60 {
 		model := porcupine.Model{Init: func() interface{} { return enc(x.init) }, Step: step}
